@@ -4339,10 +4339,26 @@ class Aligned(Subconstruct):
             raise SizeofError("cannot calculate size, key not found in context", path=path)
 
     def _emitparse(self, code):
-        return f"({self.subcon._compileparse(code)}, io.read(-({self.subcon.sizeof()}) % ({self.modulus}) ))[0]"
+        code.append(f"""
+            def parse_aligned(io, modulus, func):
+                position1 = io.tell()
+                obj = func()
+                position2 = io.tell()
+                io.read(-(position2 - position1) % modulus)
+                return obj
+        """)
+        return f"parse_aligned(io, {self.modulus}, lambda: {self.subcon._compileparse(code)})"
 
     def _emitbuild(self, code):
-        return f"({self.subcon._compilebuild(code)}, io.write({repr(self.pattern)}*(-({self.subcon.sizeof()}) % ({self.modulus}))) )[0]"
+        code.append(f"""
+            def build_aligned(io, modulus, pattern, func):
+                position1 = io.tell()
+                ret = func()
+                position2 = io.tell()
+                io.write(pattern * (-(position2 - position1) % modulus))
+                return ret
+        """)
+        return f"build_aligned(io, {self.modulus}, {repr(self.pattern)}, lambda: {self.subcon._compilebuild(code)})"
 
 
 def AlignedStruct(modulus, *subcons, **subconskw):
